@@ -500,7 +500,7 @@ class Side:
     """Everything observed on one side of a differential run."""
 
     __slots__ = ("log", "out", "term", "exc", "srcs", "fns", "value", "params", "inputs_before",
-                 "inputs_after", "handle", "foreign", "suspensions", "objs", "final_out", "alias", "items_changed", "rtype", "sources")
+                 "inputs_after", "handle", "foreign", "suspensions", "objs", "final_out", "alias", "items_changed", "rtype", "sources", "iter_asked")
 
     def __init__(self) -> None:
         self.log: List[tuple] = []
@@ -521,6 +521,7 @@ class Side:
         self.final_out: Any = None  # their canonical form after the run (later mutation shows here)
         self.alias: Any = None  # identity pattern: index of the first yielded object that IS this one
         self.items_changed = False  # an input element was modified
+        self.iter_asked: dict = {}  # source id -> uses of any source so far when it was first asked for an iterator
         self.sources: List[Any] = []  # the source objects handed to the library (for probing them after the run)
 
 
@@ -576,6 +577,7 @@ def _mk_states(spec: dict, fault: Optional[Fault], susp: int, log: bool, side: S
         if susp or f_at is not None:
             plan = Plan(susp, f_at, fault.exc if f_at is not None else None)
         side.srcs.append(SrcState(s, build_items(spec, s), plan, log))
+    CTX.srcs = side.srcs
     for i, name in enumerate(spec.get("fns", [])):
         if name is None:
             side.fns.append(None)
@@ -691,6 +693,7 @@ def run_sync_side(spec: dict, fault: Optional[Fault] = None, steps: Optional[int
                 CTX.ev(*side.term)
     finally:
         side.log = CTX.log
+        side.iter_asked = dict(CTX.iter_asked)
     _finish_objs(side, elems_before)
     return side
 
@@ -818,6 +821,11 @@ def run_async_side(spec: dict, flavours: Optional[List[str]] = None, fn_flavours
                     if cancel_exc is not None and exc is cancel_exc:
                         side.term = ("raise", type(exc).__name__, True)
                     break
+                if CTX.thrown and cancel_exc is not None:
+                    # the advance into which the cancellation was thrown handed out an item: the exception did not
+                    # propagate out of the operation it interrupted (whatever happens on a later advance)
+                    side.term = ("item-after-cancel", canon(item))
+                    break
                 side.out.append(canon(item))
                 if side.objs is not None:
                     side.objs.append(item)
@@ -852,6 +860,7 @@ def run_async_side(spec: dict, flavours: Optional[List[str]] = None, fn_flavours
         side.term = ("budget",)
     side.log = CTX.log
     side.foreign = builtins.list(CTX.foreign)
+    side.iter_asked = dict(CTX.iter_asked)
     side.suspensions = CTX.suspensions
     _finish_objs(side, elems_before)
     if items_before is not None:
